@@ -1,7 +1,6 @@
 import BPT.Rust.ValidatorSound
 import BPT.Rust.BranchReach
 import BPT.Rust.CheckedSpec
-import BPT.Generated.Tie
 /-
   C14 — Rust validators reject every documented kind of structural damage.
 
